@@ -23,6 +23,7 @@ recursive-descent parser for the *expression*.  Grammar (nothing else is accepte
             | 'gen_bool(' expr ')'                 (after the site's receiver normalisation `rng.gen_bool` -> `gen_bool`;
                                                     an UNINTERPRETED function symbol Rat -> Bool)
             | 'Ok(' expr ')' | 'Err(())'           (Result<_, ()> as Option)
+            | 'vec![' expr (',' expr)* ']'         (a List of scalars)
             | 'if' expr block 'else' (block | if-expr)
             | 'match' expr '{' (pat ('|' pat)* '=>' expr ','?)* '}'      pat := '(' b ',' b ')' | b ;  b := true|false|_
             | block
@@ -152,7 +153,7 @@ class Source:
 
 TOKEN = re.compile(
     r"\s*(?:(?P<float>\d+\.\d*(?!\.)|\d+\.(?=\s|\)|,|;|$))|(?P<int>\d+)|(?P<id>[A-Za-z_]\w*(?:::[A-Za-z_]\w*)*)"
-    r"|(?P<op>=>|==|!=|<=|>=|&&|\|\||>>|[-+*/%()<>!,.{}|=;]))"
+    r"|(?P<op>=>|==|!=|<=|>=|&&|\|\||>>|[-+*/%()<>!,.{}|=;\[\]]))"
 )
 
 
@@ -181,7 +182,7 @@ def lex(text, site):
 # ------------------------------------------------------------------------------------------------
 CONSTS = {"std::f64::EPSILON": "EPSILON", "f64::EPSILON": "EPSILON"}
 CASTS = {"f64": "Rat", "i32": "Int", "usize": "Nat"}
-KEYWORDS = {"if", "else", "match", "let", "as", "true", "false", "max", "min", "gen_bool", "Ok", "Err", "fn", "return",
+KEYWORDS = {"if", "else", "match", "let", "as", "true", "false", "max", "min", "gen_bool", "Ok", "Err", "vec", "fn", "return",
             "while", "for", "loop", "mut", "ref", "move", "unsafe"}
 
 
@@ -419,6 +420,18 @@ class Parser:
                 for v in "(", "(", ")", ")":
                     self.expect("op", v)
                 return ("none",)
+            if val == "vec":
+                self.next()
+                self.expect("op", "!")
+                self.expect("op", "[")
+                items = [self.expr()]
+                while self.at("op", ","):
+                    self.next()
+                    if self.at("op", "]"):
+                        break
+                    items.append(self.expr())
+                self.expect("op", "]")
+                return ("list", items)
             if val in CONSTS:
                 self.next()
                 return ("const", CONSTS[val])
@@ -455,6 +468,8 @@ def tyname(t):
             return "(" + " × ".join(tyname(x) for x in t[1:]) + ")"
         if t[0] == "opt":
             return "Option " + tyname(t[1])
+        if t[0] == "list":
+            return "List " + tyname(t[1])
     return t
 
 
@@ -527,7 +542,7 @@ class Emit:
             if op in ("==", "!="):
                 if ta == "Rat":
                     self.note("f64 `%s` is exact equality of rationals (no NaN)" % op)
-                return "decide (%s %s %s)" % (a, {"==": "=", "!=": "≠"}[op], b) if False else "(decide (%s %s %s))" % (a, {"==": "=", "!=": "≠"}[op], b), "Bool"
+                return "(decide (%s %s %s))" % (a, {"==": "=", "!=": "≠"}[op], b), "Bool"
             if ta not in ("Rat", "Nat", "Int"):
                 self.fail("ordering `%s` on %s" % (op, tyname(ta)))
             return "(decide (%s %s %s))" % (a, {"<=": "≤", ">=": "≥"}.get(op, op), b), "Bool"
@@ -619,6 +634,12 @@ class Emit:
                 self.fail("nested gen_bool")
             self.uses_gen_bool = True
             return "(gen_bool %s)" % a, "Bool"
+        if k == "list":
+            parts = [self.go(x, env, ind) for x in e[1]]
+            t0 = parts[0][1]
+            if any(t != t0 for _, t in parts) or t0 not in ("Rat", "Nat", "Int", "Bool"):
+                self.fail("`vec![…]` with elements of types %s" % ", ".join(tyname(t) for _, t in parts))
+            return "[%s]" % ", ".join(a for a, _ in parts), ("list", t0)
         if k == "some":
             a, ta = self.go(e[1], env, ind)
             return "(some %s)" % a, ("opt", ta)
@@ -660,6 +681,8 @@ def has_gen_bool(e):
         return False
     if e and e[0] == "gen_bool":
         return True
+    if e and e[0] == "list":
+        return any(has_gen_bool(x) for x in e[1])
     return any(has_gen_bool(x) if isinstance(x, tuple) else (isinstance(x, list) and any(has_gen_bool(y[1]) for y in x)) for x in e[1:])
 
 
@@ -708,8 +731,7 @@ class Gen:
         body, ty = em.go(ast)
         if want is not None and ty != want:
             raise Unknown(site, "expression has type %s, expected %s" % (tyname(ty), tyname(want)))
-        used = free_vars(ast)
-        ps = [(n, t) for n, t in params if n in used or n.startswith("_")] if False else list(params)
+        ps = list(params)
         if em.uses_gen_bool:
             em.note("`rng.gen_bool(x)` is an uninterpreted function symbol `gen_bool : Rat → Bool`; `%s_draws` lists the arguments of the calls Rust's short-circuit evaluation makes" % name)
             self.add(name, [("gen_bool", "Rat → Bool")] + ps, ty, body, doc)
@@ -719,20 +741,6 @@ class Gen:
             self.add(name, ps, ty, body, doc)
         self.record(name, src, off, text, em.notes, what)
         return body, ty
-
-
-def free_vars(e):
-    out = set()
-    if isinstance(e, tuple):
-        if e and e[0] == "var":
-            out.add(e[1])
-        for x in e[1:]:
-            if isinstance(x, tuple):
-                out |= free_vars(x)
-            elif isinstance(x, list):
-                for _, b in x:
-                    out |= free_vars(b)
-    return out
 
 
 def parse_sig(sig, site):
@@ -1036,6 +1044,91 @@ def run(repo):
                 "`swap_on_chunks` (returns whether the swap happens; the effect `ga.swap_graphs(gb)` of the true branch is dropped): "
                 "`relw_ab` = `ga.relative_weight(gb)`, `relw_ba` = `gb.relative_weight(ga)`, `n_a`/`n_b` = `ga.get_n()`/`gb.get_n()`, `ba`/`bb` = `*ba`/`*bb`",
                 want="Bool", what=fname)
+
+    # ---- 12. QmcIsingGraph::hamiltonian: dispatch on the bond index -----------------------------
+    src = g.file(ISING)
+    fname = "hamiltonian"
+    site = ISING + "::" + fname
+    f = src.fn(fname, site)
+    flat = " ".join(src.body(f).split())
+    sk = re.fullmatch(
+        r"match bond \{ bond if ([^{}]*?) => \{ debug_assert_eq!\(vars\.len\(\), 2\); two_site_hamiltonian\( \(input_state\[0\], input_state\[1\]\), \(output_state\[0\], output_state\[1\]\), info\.edges\[bond\]\.1, \) \} "
+        r"bond if ([^{}]*?) => \{ debug_assert_eq!\(vars\.len\(\), 1\); transverse_hamiltonian\(input_state\[0\], output_state\[0\], info\.transverse\) \} "
+        r"bond if ([^{}]*?) => \{ debug_assert_eq!\(vars\.len\(\), 1\); longitudinal_hamiltonian\(input_state\[0\], output_state\[0\], info\.longitudinal\) \} "
+        r"_ => unreachable!\(\), \}", flat)
+    if not sk:
+        raise Unknown(site, "the `match bond { bond if <c1> => two_site_hamiltonian((in[0], in[1]), (out[0], out[1]), info.edges[bond].1), bond if <c2> => "
+                            "transverse_hamiltonian(in[0], out[0], info.transverse), bond if <c3> => longitudinal_hamiltonian(in[0], out[0], info.longitudinal), _ => unreachable!() }` skeleton")
+    rw = [("info.edges.len()", "edges_len"), ("info.nvars", "nvars")]
+    conds = [parse_expr(normalise(sk.group(i), rw, site, required=["info.edges.len()"]), site) for i in (1, 2, 3)]
+    ast = ("if", conds[0], ("num", "Nat", Fraction(0)), ("if", conds[1], ("num", "Nat", Fraction(1)), ("if", conds[2], ("num", "Nat", Fraction(2)), ("num", "Nat", Fraction(3)))))
+    g.translate("hamiltonian_dispatch", site, src, f["start"], src.src[f["start"]:f["body1"] + 1], ast, [("bond", "Nat"), ("edges_len", "Nat"), ("nvars", "Nat")],
+                "which arm of `QmcIsingGraph::hamiltonian`'s `match bond { bond if … }` is taken: 0 = `two_site_hamiltonian((in[0], in[1]), (out[0], out[1]), "
+                "edges[bond].1)`, 1 = `transverse_hamiltonian(in[0], out[0], transverse)`, 2 = `longitudinal_hamiltonian(in[0], out[0], longitudinal)`, "
+                "3 = `unreachable!()` (the arms' calls are checked literally)", want="Nat", what=fname)
+    f2 = src.fn("make_haminfo", ISING + "::make_haminfo")
+    if " ".join(src.body(f2).split()) != "HamInfo { edges: &self.edges, transverse: self.transverse, longitudinal: self.longitudinal, nvars: self.get_nvars(), }":
+        raise Unknown(ISING + "::make_haminfo", "body is no longer the field-by-field HamInfo literal")
+
+    # ---- 13. bonds_fn (bond index -> variables, constant flag), four sites ---------------------
+    ms = all_matches(src, r"let bonds_fn = \|b: usize\| -> (\(&\[usize\], bool\)|&\[usize\]) \{", ISING)
+    where = [src.enclosing(m.start()) for m in ms]
+    expect = ["single_diagonal_step", "single_rvb_sweep", "set_enable_heatbath", "timestep"]
+    if where != expect:
+        raise Unknown(ISING + "::bonds_fn", "`let bonds_fn = |b: usize| -> … {` expected exactly in %s, found in %s" % (expect, where))
+    if len(re.findall(r"\n\s*vars: \(0\.\.nvars\)\.collect\(\),(?=\n)", src.src)) != 1:
+        raise Unknown(ISING + "::new_with_rng_with_manager_hook", "`vars: (0..nvars).collect(),` (so that `vars[b] = b`)")
+    terms = []
+    for m, fn in zip(ms, where):
+        site = "%s::%s::bonds_fn" % (ISING, fn)
+        i0 = m.end() - 1
+        i1 = match_brace(src.src, i0, site)
+        text = src.src[i0:i1 + 1]
+        fbody = src.body(src.fn(fn, site))
+        if len(re.findall(r"let vars = &self\.vars;", fbody)) != 1:
+            raise Unknown(site, "expected exactly one `let vars = &self.vars;` in the function")
+        with_flag = m.group(1) != "&[usize]"
+        if with_flag:
+            rw = [("(&edges[b].0, false)", "((false, false), b)"), ("(&vars[b..b + 1], true)", "((true, true), b)"), ("(&vars[b..b + 1], false)", "((true, false), b)")]
+        else:
+            rw = [("&edges[b].0", "((false, false), b)"), ("&vars[b..b + 1]", "((true, CONST), b)")]
+        txt = text
+        for old, new in rw:
+            if txt.count(old) < 1:
+                raise Unknown(site, "expected the spelling `%s`" % old)
+            txt = txt.replace(old, new)
+        if not with_flag:
+            # the heat-bath table builder takes only the variables: the constant flag is not part of this closure; to compare
+            # the four sites the flag of the other three is filled in (first single-variable branch true, second false)
+            if txt.count("CONST") != 2:
+                raise Unknown(site, "expected exactly two single-variable branches")
+            txt = txt.replace("CONST", "true", 1).replace("CONST", "false", 1)
+        txt = normalise(txt, [("edges.len()", "edges_len")], site, required=["edges.len()"])
+        ast = parse_expr(txt, site)
+        body_, _ = g.translate("bonds_fn_" + fn, site, src, m.start(), src.src[m.start():i1 + 1], ast, [("b", "Nat"), ("edges_len", "Nat"), ("nvars", "Nat")],
+                               "`bonds_fn` of `%s`: `((single, constant), k)` — `single = false`: the variables of edge `k` (`&edges[k].0`); `single = true`: the one "
+                               "variable `vars[k] = k` (`&vars[k..k + 1]`); `constant` = the flag returned with it%s" % (fn, "" if with_flag else " (this closure returns no flag: filled in as at the other sites)"),
+                               want=("tuple", ("tuple", "Bool", "Bool"), "Nat"))
+        terms.append((site, body_))
+    same(terms, "bonds_fn")
+
+    # ---- 14. the three matrices of into_qmc ----------------------------------------------------
+    fname = "into_qmc"
+    site = ISING + "::" + fname
+    f = src.fn(fname, site, expect=2, nth=0)   # the second `fn into_qmc` with a body is SerializeQmcGraph::into_qmc (restore)
+    flat = " ".join(src.body(f).split())
+    sk = re.search(
+        r"let transverse = self\.transverse; let longitudinal = self\.longitudinal; "
+        r"self\.edges\.into_iter\(\)\.for_each\(\|\(vars, j\)\| \{ qmc\.make_diagonal_interaction_and_offset\((vec!\[[^\]]*\]), vars\) \.unwrap\(\) \}\); "
+        r"\(0\.\.nvars\)\.for_each\(\|var\| \{ qmc\.make_interaction\( (vec!\[[^\]]*\]), vec!\[var\], \) \.unwrap\(\) \}\); "
+        r"if [^{]* \{ \(0\.\.nvars\)\.for_each\(\|var\| \{ qmc\.make_interaction_and_offset\( (vec!\[[^\]]*\]), vec!\[var\], \) \.unwrap\(\) \}\); \} "
+        r"qmc\.set_manager\(self\.op_manager\.unwrap\(\)\); qmc\.set_cutoff\(self\.cutoff\); qmc$", flat)
+    if not sk:
+        raise Unknown(site, "the edges / transverse / (guarded) longitudinal `for_each … make_*interaction*(vec![…], …).unwrap()` skeleton followed by set_manager, set_cutoff")
+    for i, (nm, var, doc) in enumerate((("into_qmc_edge_matrix", "j", "diagonal table handed to `make_diagonal_interaction_and_offset` per edge"),
+                                        ("into_qmc_transverse_matrix", "transverse", "full matrix handed to `make_interaction` per variable"),
+                                        ("into_qmc_field_matrix", "longitudinal", "full matrix handed to `make_interaction_and_offset` per variable (only under the field guard)"))):
+        g.translate(nm, site, src, f["start"], sk.group(i + 1), parse_expr(sk.group(i + 1), site), [(var, "Rat")], doc + " in `into_qmc`", want=("list", "Rat"), what=fname)
 
     # ---- 11. get_mat_var_size: the even-exponent rule ------------------------------------------
     src = g.file(RUNNER)
